@@ -8,7 +8,7 @@ import numpy as np
 import common as C
 import hydro_common as HC
 
-LEAN_MODULE = "WallGoVerif.Props.C15"
+LEAN_MODULES = ["WallGoVerif.Props.C15", "WallGoVerif.Props.C15A"]
 LEMMA_MODULES = ["WallGoVerif.Lemmas.Template"]
 GEN_MODULES = ["Helpers", "Hydro", "Template"]
 VALIDATION_POINTS = (100, 2000)
